@@ -57,6 +57,9 @@ EXPECTED_PROBES = ["outcome.datetime", "outcome.ParserError",
                    "clock_jump", "set_tz", "stream_fault_passed_through",
                    "repeat_identical"]
 
+REAL = ['dateutil.parser from /repo/src', 'decimal, re, io.StringIO from CPython', 'glibc tzset under the real TZ variable', 'real OS threads in the threads class']
+STUB = ['text streams (one character per read, injected exception / early EOF)', 'wall clock (SimClock)', 'thread scheduling (LINE events of parser/_parser.py)', "warnings delivery (per-thread recorder, 'always' filter)"]
+
 CLASSES = {
     "calls":   dict(quick=8000, thorough=120000, timeout=60),
     "stream":  dict(quick=3000, thorough=40000, timeout=60),
